@@ -100,7 +100,10 @@ fn check_inputs(
     if res.len() < inputs.len() {
         let why = match out.exit {
             crate::run::Exit::Timeout => "did not return within the 20 s watchdog".to_string(),
-            other => format!("child ended with {other:?}: {}", out.stderr.lines().last().unwrap_or("")),
+            other => format!(
+                "child ended with {other:?}: {}",
+                out.stderr.lines().find(|l| l.contains("lalrpop_verif:")).or(out.stderr.lines().last()).unwrap_or("")
+            ),
         };
         return Err((res.len(), why));
     }
@@ -138,6 +141,19 @@ fn eval_grammar(cli: &Path, exe: &Path, dir: &Path, text: &str, inputs: &[String
         Ok(r) => r,
         Err((usize::MAX, e)) => {
             tl.violation("C08/lexer/tables-unusable", &e, replay("", json!(e)));
+            return;
+        }
+        Err((k, why)) if why.contains("lalrpop_verif: lexer loop made no progress") => {
+            // the cfg(lalrpop_verif) hook in lalrpop-util/src/lexer.rs saw the loop in
+            // `next()` look at one offset twice within a single call; the lexer state is
+            // (text, consumed) only, so without the hook this call never returns
+            let input = inputs.get(k).cloned().unwrap_or_default();
+            tl.evals += 1;
+            tl.violation(
+                "C08/lexer/spins-inside-next",
+                &format!("one call of the built-in lexer's next() never returns on input {input:?}: {why}"),
+                replay(&input, json!(why)),
+            );
             return;
         }
         Err((k, why)) => {
